@@ -1034,6 +1034,26 @@ theorem proveBinaryOp_sound {env : Env} {fs : List Expr} {op : BOp} {l r : Expr}
     exact proveCore_sound hf (bounds_contain' hf hvl hlb).2 (bounds_contain' hf hvr hrb).2 h
   · cases h
 
+/-- an accepted plain `assert` is true in every store that satisfies the facts -/
+theorem proveAssert_sound {env : Env} {fs : List Expr} {c : Expr}
+    (hf : FactsHold env fs) (hv : varsOk env c) (h : proveAssert fs c = some true) :
+    evalI env c ≠ 0 := by
+  unfold proveAssert at h
+  split at h
+  · cases h
+  · split at h
+    · rename_i hc
+      exact hf c (List.contains_iff_mem.1 hc)
+    · split at h
+      · rename_i v
+        simp only [Option.some.injEq, beq_iff_eq] at h
+        subst h
+        simp [evalI]
+      · rename_i op l r
+        simp only [varsOk] at hv
+        exact proveBinaryOp_sound hf hv.1 hv.2 h
+      · cases h
+
 /-- an accepted element read `a[i]` is within the array: `0 ≤ i < len` -/
 theorem index_in_range' {env : Env} {fs : List Expr} {a : String} {len : Nat} {ety : Ty}
     {i : Expr} {b : IR} (hf : FactsHold env fs) (hv : varsOk env (.index a len ety i))
